@@ -1,2 +1,160 @@
--- stub: driver for C20 not written yet
-def main : IO Unit := pure ()
+import CMacVerif.Model.Yaml
+import CMacVerif.Model.Units
+import CMacVerif.Util.Bits
+/-! Line-protocol driver for C20.  Strings cross the boundary hex-encoded (two digits per byte,
+"-" = empty string).  See tools/props/c20.py for the op formats. -/
+open CMacVerif CMacVerif.Util
+
+namespace C20
+open CMacVerif.Yaml
+
+def hexVal (c : Char) : Nat :=
+  if '0' ≤ c && c ≤ '9' then c.toNat - '0'.toNat
+  else if 'a' ≤ c && c ≤ 'f' then c.toNat - 'a'.toNat + 10
+  else if 'A' ≤ c && c ≤ 'F' then c.toNat - 'A'.toNat + 10 else 0
+
+def unhexL : List Char → List Char
+  | a :: b :: r => Char.ofNat (16 * hexVal a + hexVal b) :: unhexL r
+  | _ => []
+
+def unhex (s : String) : List Char := if s = "-" then [] else unhexL s.toList
+
+def hexDigit (n : Nat) : Char := if n < 10 then Char.ofNat (48 + n) else Char.ofNat (87 + n)
+
+def hexL : List Char → List Char
+  | [] => []
+  | c :: r => hexDigit (c.toNat / 16 % 16) :: hexDigit (c.toNat % 16) :: hexL r
+
+def hex (s : List Char) : String := if s.isEmpty then "-" else String.ofList (hexL s)
+
+/-- split at '\n' like repeated `getline` (a trailing newline does not give an extra line) -/
+def splitLines (s : List Char) : List (List Char) :=
+  let rec go : List Char → List Char → List (List Char)
+    | [], cur => if cur.isEmpty then [] else [cur.reverse]
+    | c :: r, cur => if c = '\n' then cur.reverse :: go r [] else go r (c :: cur)
+  go s []
+
+def joinLines (ls : List (List Char)) : List Char := ls.foldr (fun l acc => l ++ '\n' :: acc) []
+
+def showDict (d : Dict) : List Char :=
+  d.foldr (fun kv acc => kv.1 ++ Char.ofNat 31 :: kv.2 ++ Char.ofNat 30 :: acc) []
+
+/-- branch tags of one print run: which printer branches were taken -/
+structure Tags where
+  a : Nat := 0        -- |keygroups| > |groupname|
+  b : Nat := 0
+  stale : Nat := 0    -- the shrinking loop left entries beyond the common prefix
+  reemit : Nat := 0   -- headers printed although the group did not change (stale stack)
+  jump : Nat := 0     -- nesting changed by two or more levels
+  maxDepth : Nat := 0
+
+def tagRun (d : Dict) : Tags := Id.run do
+  let mut g : List Str := []
+  let mut prev : List Str := []
+  let mut t : Tags := {}
+  for (k, v) in d do
+    let kg := (splitKey k).1
+    let i := lcp g kg
+    if kg.length > g.length then
+      t := { t with a := t.a + 1 }
+      if (popShrink i g).length > i then t := { t with stale := t.stale + 1 }
+    else
+      t := { t with b := t.b + 1 }
+    if lcp prev kg > i then t := { t with reemit := t.reemit + 1 }
+    if kg.length ≥ prev.length + 2 || prev.length ≥ kg.length + 2 then t := { t with jump := t.jump + 1 }
+    if kg.length > t.maxDepth then t := { t with maxDepth := kg.length }
+    g := (printEntry g k v).1
+    prev := kg
+  return t
+
+def showTags (t : Tags) : String :=
+  s!" #A={min t.a 1},B={min t.b 1},stale={min t.stale 1},reemit={min t.reemit 1},jump={min t.jump 1},depth={t.maxDepth}"
+
+def yamlOp (text : List Char) : String :=
+  match parseText (splitLines text) with
+  | none => "err #parse-error"
+  | some d =>
+    let out := joinLines (printText d)
+    s!"ok {d.length} {hex out} {hex (showDict d)}" ++ showTags (tagRun d)
+
+def pairs : List String → Dict
+  | k :: v :: r => Dict.insert (unhex k) (unhex v) (pairs r)
+  | _ => []
+
+def usedOp (text : List Char) (used : Dict) : String :=
+  match parseText (splitLines text) with
+  | none => "err #parse-error"
+  | some d =>
+    let out := joinLines (printUsedText used d)
+    s!"ok {hex out} #used"
+
+end C20
+
+namespace C20U
+open CMacVerif.Units CMacVerif.Gen.Units
+
+instance : OfScientific Rat := inferInstance
+
+def showUnitF (u : Unit Float) : String :=
+  s!"{showF u.value} {u.length} {u.time} {u.mass} {u.temperature} {u.current} {u.angle}"
+
+def showRat (r : Rat) : String := s!"{r.num}/{r.den}"
+
+def showUnit (uf : Option (Unit Float)) (ur : Option (Unit Rat)) : String :=
+  match uf, ur with
+  | some a, some b => s!"ok {showUnitF a} r={showRat b.value}"
+  | _, _ => "err"
+
+def showVal (a : Option Float) (b : Option Rat) (tag : String) : String :=
+  match a, b with
+  | some x, some y => s!"ok {showF x} r={showRat y} #{tag}"
+  | _, _ => s!"err #{tag}-err"
+
+def ratOfBits! (n : Nat) : Rat := (ratOfBits n).getD 0
+
+/-- which branch of to_SI / to_unit -/
+def convTag (q : Nat) (u : List Char) : String :=
+  match (getSIUnit q : Option (Unit Rat)), (getUnit u : Option (Unit Rat)) with
+  | some si, some un => if si.sameQuantity un then "same" else
+      (if si.sameQuantity ((getSIUnit qFrequency : Option (Unit Rat)).getD si) then "cross-to-freq" else "cross")
+  | _, _ => "bad-unit"
+
+end C20U
+
+open C20 C20U CMacVerif.Units in
+def step (_ : Unit) : List String → Unit × String
+  | ["yaml", t] => ((), yamlOp (unhex t))
+  | "used" :: t :: kvs => ((), usedOp (unhex t) (pairs kvs))
+  | "query" :: _ => ((), "-")
+  | ["single", n] =>
+    ((), showUnit (getSingleUnit (unhex n)) (getSingleUnit (unhex n)) ++ " #single")
+  | ["tablerel", a, f, b] =>
+    let va : Option (Unit Rat) := getSingleUnit (unhex a)
+    let vb : Option (Unit Rat) := getSingleUnit (unhex b)
+    let fr : Rat := (nat! f : Nat)
+    match va, vb, lookup (unhex a) CMacVerif.Gen.Units.table, lookup (unhex b) CMacVerif.Gen.Units.table with
+    | some ua, some ub, some ea, some eb =>
+      if !ua.sameQuantity ub then ((), "inconsistent #table-dimensions")
+      else if ua.value = fr * ub.value then ((), "ok #table-exact")
+      else
+        -- on the shortest round-trip decimals: ma * 10^xa = f * mb * 10^xb
+        let sh (m : Int) (x : Int) (lo : Int) : Int := m * (10 : Int) ^ (x - lo).toNat
+        let lo := min ea.val.decExp eb.val.decExp
+        if sh ea.val.decMant ea.val.decExp lo = (nat! f : Nat) * sh eb.val.decMant eb.val.decExp lo
+        then ((), "ok #table-decimal") else ((), "inconsistent #table-inconsistent")
+    | _, _, _, _ => ((), "err #table-err")
+  | ["unit", s] => ((), showUnit (getUnit (unhex s)) (getUnit (unhex s)) ++ " #unit")
+  | "compound" :: parts =>
+    let s := (parts.map unhex).foldr (fun p acc => if acc.isEmpty then p else p ++ ' ' :: acc) []
+    ((), showUnit (getUnit s) (getUnit s) ++ " #compound")
+  | ["tosi", q, v, s] =>
+    let q := nat! q; let s := unhex s
+    ((), showVal (toSI q (fOfBits (nat! v)) s) (toSI q (ratOfBits! (nat! v)) s) ("tosi-" ++ convTag q s))
+  | ["tounit", q, v, s] =>
+    let q := nat! q; let s := unhex s
+    ((), showVal (toUnit q (fOfBits (nat! v)) s) (toUnit q (ratOfBits! (nat! v)) s) ("tounit-" ++ convTag q s))
+  | ["convert", v, a, b] =>
+    ((), showVal (convert (fOfBits (nat! v)) (unhex a) (unhex b)) (convert (ratOfBits! (nat! v)) (unhex a) (unhex b)) "convert")
+  | _ => ((), "bad-op")
+
+def main : IO Unit := runDriver step ()
